@@ -14,14 +14,15 @@ class C03(SimCheck):
         "optionally with marker-free garbage between frames, and the chooser cuts the byte stream into reads by "
         "one law per run: whole frames, ONE cut at offset (run index mod stream length) -- systematic, so a batch "
         "covers every offset of short streams --, two cuts, 1-byte reads, 1..8-byte reads, mixed/Pareto sizes, "
-        "cuts placed -7..+8 bytes around a frame-start marker, reads above 4096 bytes, everything at once; the "
+        "cuts placed -7..+8 bytes around a frame-start marker, reads above 4096 bytes, everything at once; 1 run in 7 "
+        "adds a network stall of 1.2 heartbeat intervals of simulated time between two parts of one frame; the "
         "real StreamReader and the real socket_read_task reassemble; oracle: on_message sequence, TestRequest "
         "replies, inbound journal rows byte for byte, and a frame sent afterwards is still delivered; "
         "non-trivial = >= 3 chooser actions; distinct = distinct (event kind, actor) sequence digest"
     )
     assumptions = [
         "garbage between frames contains no frame-start marker and does not end in a marker prefix",
-        "virtual time stands still during delivery (heartbeat 1000 s), so replies do not depend on timestamps",
+        "virtual time stands still during delivery (heartbeat 1000 s; 5 s in the runs with a stall), so replies do not depend on timestamps",
     ]
 
     def make_config(self, seed, tier, index=0):
